@@ -150,13 +150,36 @@ pub fn lw_pool(quick: bool) -> Vec<LwSpec> {
     // F10: one Reliable packet followed at once by a long run of small Unreliable ones (parent leads of 1..300: every datagram
     // header encoding and its boundaries 127/128, 255/256 occur), same channel and alternating channels, warm
     for (name, chans) in [("same-channel", 1usize), ("two-channels", 2)] {
-        let ops: Vec<Op> = std::iter::once(send(0, 0, 0, Reliable, 20)).chain((0..300usize).map(|i| send(0, 0, (i % chans) as u8, Unreliable, 4 + i % 8))).chain(std::iter::once(send(1, 0, 0, Reliable, 21))).collect();
+        // (in the two-channel variant the Reliable packet is on a third channel, so the others have a window parent but no channel parent)
+        let ops: Vec<Op> = vec![send(0, 0, if chans == 2 { 5 } else { 0 }, Reliable, 20), send(0, 0, 0, Persistent, 22)].into_iter().chain((0..300usize).map(|i| send(0, 0, (i % chans) as u8, Unreliable, 4 + i % 8))).chain(std::iter::once(send(1, 0, 0, Reliable, 21))).collect();
         let s = Arc::new(ScriptInfo::new(warm(&ops, 30)));
         let mut env = env_live(30, if quick { 3 } else { 6 });
         env.fates = &[Fate::Deliver, Fate::Drop]; env.deltas = &[20];
         // a round trip of 10 rounds: the whole run leaves before the Reliable packet is acknowledged
         let cfg = LwCfg { latency: 5, ..wide.clone() };
         v.push(sp(&format!("bulk.long-unreliable-run.{}", name), &cfg, &s, env, 1));
+    }
+    // F10b: the datagram header encodings switch at parent leads of 128 and 256: a Reliable packet on one channel, a Persistent one on
+    // channel 0, filler on channel 1, and exactly one more packet on channel 0 whose window parent lead is L - the only packet that
+    // can overtake the Persistent one if its first transmission is lost
+    for lead in [128usize, 256] {
+        let ops: Vec<Op> = vec![send(0, 0, 5, Reliable, 20), send(0, 0, 0, Persistent, 22)].into_iter().chain((0..lead - 2).map(|i| send(0, 0, 1, Unreliable, 4 + i % 8))).chain(std::iter::once(send(0, 0, 0, Unreliable, 9))).chain((0..10usize).map(|i| send(0, 0, 1, Unreliable, 30 + i))).collect();
+        let s = Arc::new(ScriptInfo::new(warm(&ops, 30)));
+        let mut env = env_live(30, if quick { 3 } else { 6 });
+        env.fates = &[Fate::Deliver, Fate::Drop]; env.deltas = &[20];
+        let cfg = LwCfg { latency: 5, ..wide.clone() };
+        v.push(sp(&format!("bulk.parent-lead-{}", lead), &cfg, &s, env, 1));
+    }
+    // F11: exactly one packet window (4) of small packets, one per round, every script over 2 channels x {U, R, P}, with up to three
+    // frames lost: the window is exactly full while several packets are missing, and reopens piecewise
+    let four = scripts_upto(4, &[0, 1], &[Unreliable, Reliable, Persistent], &[40], &[1]);
+    for cfg in if quick { vec![w4] } else { vec![w4, w4wrap, w4wrap2] } {
+        for s in four.iter().filter(|s| s.ops.len() == 4 && s.ops.iter().any(|o| matches!(o.kind, OpKind::Send { mode: Persistent, .. })) && s.ops.iter().any(|o| matches!(o.kind, OpKind::Send { mode: Reliable, .. }))) {
+            let s = Arc::new(ScriptInfo::new(warm(&s.ops, 8)));
+            let mut env = env_live(8, 8);
+            env.fates = &[Fate::Deliver, Fate::Drop]; env.deltas = &[20];
+            v.push(sp("window-exactly-full", cfg, &s, env, 3));
+        }
     }
     v
 }
